@@ -86,9 +86,13 @@ inline std::vector<std::pair<size_t, size_t>> tokens_of(const std::string& d, si
 
 static const char* const REPLACEMENTS[] = {"nan", "inf", "-inf", "1e400", "1e-400", "-0", "99999999999999999999", "1e300", "", "text",
                                            "1D3", "0x10", "1.5abc", "-1", "0", "2147483648", "-2147483649", "4294967297", "1e10",
-                                           "-nan", "+", "1e", ".", "00000000000000000000000000000000000000001", "1e-320"};
+                                           "-nan", "+", "1e", ".", "00000000000000000000000000000000000000001", "1e-320",
+                                           "+1", "1e+", "1.e1", ".5", "1,5", "--1", "1_000", "0x1p3", "1#2", "1e0", "1.0", "NaN", "INF", "infinity", "nan(0x1)",
+                                           "1.7976931348623159e308", "4.9e-324", "9223372036854775807", "9223372036854775808", "-9223372036854775809", "18446744073709551616",
+                                           "2147483647", "-2147483648", "\xef\xbc\x91", "1e99999999999999999999",
+                                           "111111111111111111111111111111111111111111111111111111111111111111111111111111111111111111111111111111111111111111111111111111111111111111111111111111111111111111111111111111111111111111111111111111111111111111111111111111111111111111111111111111111111111111111111111111111111111111111111111111111111111111111111111111111111111111111111111111111111111111111111.5"};
 constexpr int N_REPL = sizeof(REPLACEMENTS) / sizeof(REPLACEMENTS[0]);
-constexpr int N_REPL_ENUM = 19; ///< the first 19 kinds are enumerated exhaustively
+constexpr int N_REPL_ENUM = N_REPL; ///< all kinds are enumerated exhaustively
 
 inline void note_fault(Scenario& s, const char* k)
 {
@@ -184,6 +188,30 @@ inline void apply_op(Scenario& s, const Corpus& corpus, const std::vector<std::s
       const size_t from = c.second[f - 1].second, to = c.second[f].second;
       d.replace(from, to - from, REPLACEMENTS[k]);
       damaged("replace_token_glued");
+   } else if (op == "idx") {
+      // idx LINE WHICH KIND : overwrite the first (WHICH=0) or second (WHICH=1) field of a data line with a special index value
+      static const char* const vals[] = {"0", "-1", "4", "7", "2147483647", "2147483648", "-2147483649", "99999999999", "1.0", "1.5", "1e0", "+1", "9223372036854775808", "00", "-0"};
+      auto ls = line_starts(d);
+      std::vector<std::vector<std::pair<size_t, size_t>>> cand;
+      for (size_t i = 0; i < ls.size(); ++i) { auto tk = tokens_of(d, ls[i], line_end(d, ls[i])); if (tk.size() >= 2 && d[ls[i]] != 'B' && d[ls[i]] != 'b') cand.push_back(tk); }
+      if (cand.empty()) return;
+      auto& c = cand[(size_t)(((num(1) % (long long)cand.size()) + (long long)cand.size()) % (long long)cand.size())];
+      auto& tk = c[(size_t)(num(2) & 1) < c.size() ? (size_t)(num(2) & 1) : 0];
+      d.replace(tk.first, tk.second - tk.first, vals[(size_t)(((num(3) % 15) + 15) % 15)]);
+      damaged("special_index");
+   } else if (op == "blowline") {
+      // blowline LINE N : repeat the last token of a line N times (very long line, very many fields)
+      auto ls = line_starts(d);
+      std::vector<std::pair<size_t, size_t>> last;
+      for (size_t i = 0; i < ls.size(); ++i) { auto tk = tokens_of(d, ls[i], line_end(d, ls[i])); if (!tk.empty()) last.push_back(tk.back()); }
+      if (last.empty()) return;
+      auto tk = last[(size_t)(((num(1) % (long long)last.size()) + (long long)last.size()) % (long long)last.size())];
+      const std::string tok = d.substr(tk.first, tk.second - tk.first);
+      size_t n = (size_t)(num(2) % 6000);
+      std::string add;
+      for (size_t i = 0; i < n && add.size() + d.size() < 69000; ++i) { add += ' '; add += tok; }
+      d.insert(tk.second, add);
+      damaged("very_long_line");
    } else if (op == "hdr") {
       // hdr N KIND : damage the N-th block header
       auto ls = line_starts(d);
@@ -297,7 +325,9 @@ inline std::vector<std::string> gen_plan(const Corpus& corpus, uint64_t seed, st
       }
    };
    auto struct_op = [&]() -> std::string {
-      switch (r.below(10)) {
+      switch (r.below(12)) {
+      case 10: return "idx " + std::to_string(r.below(400)) + " " + std::to_string(r.below(2)) + " " + std::to_string(r.below(15));
+      case 11: return "blowline " + std::to_string(r.below(400)) + " " + std::to_string(r.chance(0.5) ? r.below(40) : r.below(6000));
       case 9: return "tokglue " + std::to_string(r.below(400)) + " " + std::to_string(r.below(4)) + " " + std::to_string(r.below(N_REPL));
       case 0: case 1: case 2: return "tok " + std::to_string(r.below(400)) + " " + std::to_string(r.below(4)) + " " + std::to_string(r.below(N_REPL));
       case 3: return "hdr " + std::to_string(r.below(30)) + " " + std::to_string(r.below(14));
